@@ -75,6 +75,7 @@ Fails(e) == CASE e.ev = "setmic" -> Retag(SetMicFails(e), "C05.step")
               [] e.ev = "unwire" -> UnwireFails(e)
               [] e.ev = "linkend" -> EndFails(e)
               [] e.ev = "flip" -> FlipFails(e)
+              [] e.ev = "propx" -> (IF e.err = "" /\ e.micok /\ [e.recv EXCEPT !.mic = e.sent.mic] = e.sent THEN <<>> ELSE <<"C05.recover">>)   \* frames with proprietary commands registered late: the receiver recovers what was sent
               [] e.ev = "cmdtype" -> (IF e.err = "" /\ e.ty = PayloadTypeName(e.dir, e.cid) THEN <<>> ELSE <<"C05.recover">>)   \* the recovered command is the command that was sent, type included
               [] e.ev = "hang" -> <<e.prop \o ".hang">>    \* a call that never returned (recorded by the watchdog of the harness)
               [] OTHER -> <<"unknown-event">>
